@@ -1,6 +1,6 @@
 (* C07 -- A periodic spline with extrapolation is evaluated as a periodic function. *)
 From Coq Require Import List Bool Arith ZArith QArith Qcanon.
-From NI Require Import Num Base Lookup Linear Interp Spline LookupProofs LinearProofs SplineStruct Periodic.
+From NI Require Import Num Base Lookup Linear Interp Spline Tri TriProofs SplineAlgebra LookupProofs LinearProofs SplineProofs SplineStruct Periodic PeriodicSolve PeriodicLane.
 Import ListNotations.
 Local Open Scope Qc_scope.
 
@@ -62,6 +62,27 @@ Proof.
   unfold yi. destruct (rows_differ N (nth 0 data []) (nth (length data - 1) data [])); [discriminate|reflexivity].
 Qed.
 Print Assumptions C07_periodic_requires_equal_ends.
+
+(* end to end for the interpolator build() returns for Periodic + extrapolate (n >= 4): a query outside
+   the range is answered like the wrapped query, which lies in [x_0, x_(n-1)) and is answered by the
+   cubic piece of its bracketing interval; both ends carry the same data value *)
+Theorem C07_periodic_build_wraps :
+  forall (xs : list Qc) (data : list (list Qc)) (L : nat),
+    (forall i, (i < length data)%nat -> length (nth i data []) = L) ->
+    StrictIncQc xs -> length xs = length data -> (4 <= length data)%nat ->
+    (Z.of_nat (length data) <= two64)%Z ->
+    forall (trail : list nat) (sp : spline_strat) (j : nat), (j < L)%nat ->
+      spline_build NumQc BPeriodic true xs data trail = Ok sp ->
+      yq data j (length data - 1) = yq data j 0 /\
+      forall x, in_closed_range NumQc 0 xs x = false ->
+        in_closed_range NumQc 0 xs (wrap NumQc 0 xs x) = true /\
+        spline_interp NumQc sp xs data x = spline_interp NumQc sp xs data (wrap NumQc 0 xs x).
+Proof.
+  intros xs data L Hw HS Hl Hn H64 trail sp j Hj Hsp.
+  destruct (spline_periodic_correct xs data L Hw HS Hl Hn H64 true trail sp j Hj Hsp) as (kq & _ & _ & _ & Ey & _ & W).
+  split; [exact Ey|]. intros x Hx. apply (W eq_refl x Hx).
+Qed.
+Print Assumptions C07_periodic_build_wraps.
 
 Example C07_ex :
   qc_rem_euclid (qc (-7) 2) (qc 3 1) = qc 5 2 /\
